@@ -174,6 +174,7 @@ class Exec:
             m = re.fullmatch(r'(\d+)_(u|i)(8|16|32|64|size)', c)
             if m: return z3.BitVecVal(int(m.group(1)), 64 if m.group(3) == 'size' else int(m.group(3)))
             return Ctor('const', [c])
+        if not s.startswith(('_', '(')): return Ctor('fnitem', [s])
         return self.read_place(p, s)
     def rvalue(self, p, dst, rv):
         m = re.fullmatch(r'discriminant\((.*)\)', rv)
@@ -198,9 +199,20 @@ class Exec:
             return Ref([self.read_place(p, pl)])
         if rv.startswith('(') and not rv.startswith('(*') and not re.match(r'\(\(?\*?_\d+', rv):
             return tuple(self.operand(p, x) for x in split_top(rv[1:-1]))
-        m = re.fullmatch(r'([\w:<>, ]+?)(?:::<.*>)?\((.*)\)', rv)
-        if m and not rv.startswith(('copy', 'move', 'const')) and '::' in m.group(1):
-            return Ctor(m.group(1), [self.operand(p, x) for x in split_top(m.group(2))])
+        if rv.endswith(')') and not rv.startswith(('copy ', 'move ', 'const ', '(', '&')) and '::' in rv:
+            d, j = 0, len(rv) - 1
+            while j >= 0:
+                if rv[j] == ')': d += 1
+                elif rv[j] == '(':
+                    d -= 1
+                    if d == 0: break
+                j -= 1
+            head, inner = rv[:j], rv[j+1:-1]
+            name = re.sub(r'::<.*>', '', head)
+            return Ctor(name, [self.operand(p, x) for x in split_top(inner)] if inner.strip() else [])
+        m = re.fullmatch(r'(.+?) \{ (.*) \}', rv)
+        if m and not rv.startswith(('copy ', 'move ', 'const ')):
+            return Ctor(re.sub(r'::<.*>', '', m.group(1)), [self.operand(p, x.split(': ', 1)[1]) for x in split_top(m.group(2))])
         if re.fullmatch(r'[\w:]+::\w+', rv) and not rv.startswith(('copy', 'move', 'const')):
             return Ctor(rv, [])
         try:
